@@ -288,6 +288,9 @@ func HarnessKeyEncodedPairs() {
 		{"/a%2F..%2Fb", "/b", false},
 		{"/x/..%2Fy", "/y", false},
 		{"/dir%2Ffile?q=1", "/dir%2Ffile?q=2", false},
+		{"/dir%252Ffile", "/dir%2Ffile", false}, // a doubly encoded escape is not its singly encoded form
+		{"/a%2541", "/a%41", false},
+		{"/dir%252Ffile", "/dir/file", false},
 		{"/a/./b", "/a/b", true},
 		{"/a//b", "/a/b", true},
 		{"/a%2Fb/../c", "/a%2Fb/../c", true},
